@@ -13,6 +13,7 @@ from ..core import where_of, trace_of
 from ..interp import fmt, contains
 from ..model import AnalysisError
 from .. import q
+from .c11 import gate_flag
 from .c11 import gate_held, helper_lock_field
 from ..roles import std_inline
 
@@ -70,7 +71,7 @@ def check(ctx, rep):
     for p in ps:
         if p.status == "raise":
             continue
-        flips = [e for e in p.evs("store") if e.d["target"][0] == "attr" and e.d["target"][2] == "is_shutdown" and e.d["value"] == ("const", True)]
+        flips = [e for e in p.evs("store") if e.d["target"][0] == "attr" and e.d["target"][2] == gate_flag(ctx) and e.d["value"] == ("const", True)]
         snaps = [e for e in p.calls() if (q.call_name(e) == "copy" and q.recv(e) == T) or (q.call_name(e) in ("list", "set", "tuple", "frozenset") and e.d["args"] == (T,))]
         loops = [e for e in p.evs("loop") if e.d[0] == "enter"]
         cancels = [e for e in p.calls() if q.call_name(e) == "cancel"]
